@@ -59,6 +59,16 @@ func (c *conn) receiveOpen(msg pmpx.Message) status.Status {
 		return mpxErrorf("received open message for existing channel, channel=%v", id)
 	}
 
+	// Check closed, the channel can be added after the connection has closed its channels
+	if c.channelsClosed.Load() {
+		_, removed := c.channels.Delete(id)
+		ch.Free()
+		if removed {
+			ch.free()
+		}
+		return statusConnClosed
+	}
+
 	// Start handler
 	h := newChannelHandler(c, ch)
 	workerPool.Run(h)
